@@ -7,6 +7,7 @@ import StepModel.GenCxxCalls
 import StepModel.RegistryModel
 import StepModel.Accessors
 import StepModel.GenCxxRulesLemmas
+import StepModel.GenCxxAgree
 /-!
 # C02 — generated dictionary and classes mirror the EXPRESS schema
 
@@ -382,10 +383,11 @@ theorem C02_flags_preserve_order (s : Schema) (n : String) :
     single-inheritance ancestry (ordered_attrs.cc `populateAttrList` + `dedupList`): exactly one call per attribute name `x`
     whose FIRST occurrence along the chain (root first, declaration order) is in entity `cr`, and which is either declared in
     a DERIVE clause there or is redeclared in a DERIVE clause later on the chain. -/
-theorem C02_derived_calls_chain {s : Schema} {n : String} {c : List Entity} (h : IsChain s n c)
-    (hf : c.length ≤ fuelOf s) (hag : derivedCalls s n = derivedCallsN s n) (x cr : String) :
+theorem C02_derived_calls_chain {s : Schema} {rank : String → Nat} (wf : WF s rank) (rr : RedeclResolves s)
+    (r1 : RedeclNamesOneLine s) {n : String} {c : List Entity} (h : IsChain s n c)
+    (hf : c.length ≤ fuelOf s) (x cr : String) :
     (x, cr) ∈ derivedCalls s n ↔ DerivedCall (flatAttrs c) x cr := by
-  rw [hag]; exact derivedCalls_chain h hf x cr
+  rw [derivedCalls_agree wf rr r1 n]; exact derivedCalls_chain h hf x cr
 
 /-- `populateAttrList` looks for the attribute a redeclaration `SELF\sup.x` means among the attributes of `sup` and its supertypes
     (regenerated from ordered_attrs.cc; before fix C02-8 it took the first attribute named `x`, and this does not elaborate). -/
@@ -412,13 +414,16 @@ theorem C02_flags_redefined_right_supertype :
     `populateAttrList` with its search offsets and `dedupList` come down to a recursion over the supertype lists on attribute
     names, `callInfo`: the FIRST supertype in SUBTYPE OF order that knows the name says who created the attribute and whether it
     is marked already; the entity's own attributes of that name add their mark or create it.  A call `MakeDerived( x, cr )` is
-    emitted iff `callInfo` answers `(cr, true)`.  Hypotheses: `KeyByName` — in the list of `n` an attribute name has one creator —
-    and `hag` — the creator-aware search finds what the search by name finds (both hold when no two lines of supertypes
-    contribute the same attribute name; the other case is `C02_derived_calls_two_creators_witness`). -/
-theorem C02_derived_calls_closed_form (s : Schema) (n x cr : String) (hk : KeyByName (seg s (fuelOf s) n))
-    (hag : derivedCalls s n = derivedCallsN s n) :
+    emitted iff `callInfo` answers `(cr, true)`.  Hypotheses: the schema is resolved (`WF`); `KeyByName` — in the list of `n` an
+    attribute name has one creator; and two decidable conditions on the schema under which the creator-aware search of fix C02-8
+    finds what the search by name finds (`derivedCalls_agree`): `RedeclResolves` (a redeclaration `SELF\sup.x` stands in a subtype
+    of `sup`, and `sup` or a supertype declares `x` — what check-express demands) and `RedeclNamesOneLine` (the entities that
+    declare an `x` that is redeclared somewhere are `sup` or supertypes of `sup`).  The excluded shape, one name declared in two
+    lines of supertypes, is `C02_derived_calls_two_creators_witness`. -/
+theorem C02_derived_calls_closed_form {s : Schema} {rank : String → Nat} (wf : WF s rank) (rr : RedeclResolves s)
+    (r1 : RedeclNamesOneLine s) (n x cr : String) (hk : KeyByName (seg s (fuelOf s) n)) :
     (x, cr) ∈ derivedCalls s n ↔ callInfo s (fuelOf s) n x = some (cr, true) := by
-  rw [hag]; exact derivedCalls_closed s n x cr hk
+  rw [derivedCalls_agree wf rr r1 n]; exact derivedCalls_closed s n x cr hk
 
 /-- the second-supertype deviation, from the closed form: for `u SUBTYPE OF (c, b)` the first supertype that knows `x` is `c`,
     whose line does not derive it; for `u SUBTYPE OF (b, c)` it is `b`, which does -/
@@ -450,13 +455,15 @@ theorem C02_derived_calls_two_creators_witness :
     (`DerivedCall` with `marksDerived`; an explicit redeclaration does not count since fix C02-7).
     Partial: excluded are instances with an entity of several supertypes in their ancestry, where a derivation on a non-principal
     path is lost (`C02_flags_second_supertype_witness`); `KeysNodup`: (owner, registered name) tells the attributes apart;
-    `CallsAgree`: on the chain's entities the creator-aware search of `populateAttrList` finds what the search by name finds. -/
+    `WF`, `RedeclResolves`, `RedeclNamesOneLine`: resolved schema, redeclarations resolve, a redeclared name is declared in one line
+    (decidable; under them the creator-aware search of `populateAttrList` finds what the search by name finds). -/
 theorem C02_flags_derive_chain_partial {s : Schema} {n : String} {c : List Entity} (h : IsChain s n c)
-    (hf : c.length ≤ fuelOf s) (hk : KeysNodup c) (hag : CallsAgree s c)
+    (hf : c.length ≤ fuelOf s) (hk : KeysNodup c)
+    {rank : String → Nat} (wf : WF s rank) (rr : RedeclResolves s) (r1 : RedeclNamesOneLine s)
     (l : List (SA × Bool × Bool)) (hl : instanceFlags s n = some l) :
     (∀ a ∈ c.flatMap ownSAs, ∃ d r, (a, d, r) ∈ l) ∧
     ∀ a d r, (a, d, r) ∈ l → (d = true ↔ DerivedCall (flatAttrs c) a.name a.owner) := by
-  have cs := chain_state h (fuelOf s) hf hf hk hag
+  have cs := chain_state h (fuelOf s) hf hf hk (fun e _ => derivedCalls_agree wf rr r1 e.name)
   unfold instanceFlags at hl
   have hkey := C02_push_compares_descriptor
   simp only [hkey, Option.some.injEq] at hl
